@@ -212,7 +212,17 @@ def judge(case, impl, model, spec, ctx):
         t = impl.split()
         quic = case.meta["quic"]
         tries = [(untok(t[k])[0], untok(t[k + 1]) if k + 1 < len(t) else []) for k in range(0, len(t), 2)]
+        split = tries[3] if len(tries) > 3 else None
+        tries = tries[:3]
         out = []
+        if split is not None and split[0] != 9 and not quic:
+            # ClientHello in two records: no client random can be read ahead of the handshake -> the documented verdict without one
+            meta = dict(case.meta)
+            meta["cr"] = None
+            want = doc_oracle(meta)
+            if want is not None and split[0] == 1 and want[1] == 1:
+                return [("violation", "real TLS listener, peer 127.0.0.1, ClientHello spread over two TLS records (client random unreadable), rules %s: "
+                                      "the connection was admitted, the documented verdict without a client random is deny" % case.meta["rules"])]
         refused_wrongly = 0
         first_want = None
         for admitted, rnd in tries:
